@@ -21,6 +21,34 @@ Theorem c13_shared_iff_same_key :
 Proof. exact final_shared_iff_same_key. Qed.
 Print Assumptions c13_shared_iff_same_key.
 
+(* the same with the key spelled out: the trigger id is a function [keyof] of the WHOLE rendered
+   upstream input (url, header, body.query / variables / extensions, transport options, forwarded-header
+   rules, initial_payload) and of the hash of the forwarded client headers.  Two registered subscribers
+   share a trigger instance iff their rendered inputs AND their header hashes are equal -- provided
+   [keyof] is injective.  That hypothesis (no xxhash64 collision, and HashTriggerInput hashing every byte
+   of the input) is an assumption about the implementation, not a theorem; it is what the "ident"
+   stream of the check tests on the real graphql_datasource.SubscriptionSource and prepareTrigger. *)
+Theorem c13_shared_iff_same_input :
+  forall flt wresf ev_bad hbfail (input hhash : Type) (keyof : input -> hhash -> key),
+    (forall i h i' h', keyof i h = keyof i' h' -> i = i' /\ h = h') ->
+    forall (inp : sid -> input) (hdr : sid -> hhash) acts st s1 s2,
+    run fixed flt wresf ev_bad hbfail init acts = Some st -> In s1 (byid st) -> In s2 (byid st) ->
+    s_key (subs st s1) = keyof (inp s1) (hdr s1) -> s_key (subs st s2) = keyof (inp s2) (hdr s2) ->
+    (s_tid (subs st s1) = s_tid (subs st s2) <-> inp s1 = inp s2 /\ hdr s1 = hdr s2).
+Proof. exact final_shared_iff_same_input. Qed.
+Print Assumptions c13_shared_iff_same_input.
+
+(* ... and the hypothesis is needed: with a key function that ignores one component of the input
+   (here the second component of a pair) two subscribers with different inputs share one upstream
+   subscription and Start is called once *)
+Theorem c13_sharing_needs_injective_key :
+  exists (keyof : nat * nat -> nat -> key) (inp : sid -> nat * nat) (hdr : sid -> nat) st,
+    run fixed flt0 wres0 bad0 hb0 init ex_collide = Some st /\ In 1 (byid st) /\ In 2 (byid st) /\
+    s_key (subs st 1) = keyof (inp 1) (hdr 1) /\ s_key (subs st 2) = keyof (inp 2) (hdr 2) /\
+    inp 1 <> inp 2 /\ s_tid (subs st 1) = s_tid (subs st 2) /\ starts (chron st) = [0].
+Proof. exact sharing_needs_injective_key_proof. Qed.
+Print Assumptions c13_sharing_needs_injective_key.
+
 (* quiescent: no thread has a step left, and the resolver was shut down or every subscriber was asked
    to leave by its client or the source of its trigger said Done / failed to start *)
 Theorem c13_registry_empty :
